@@ -1,7 +1,7 @@
 (* E10 Proto -- abstract multi-Paxos as a transition system (ballots, p1a / p1b / p2a / p2b,
    per-slot chosen value), the protocol skeleton of hydro_test/src/cluster/paxos.rs:
      p1a  = a proposer's ballot announcement,
-     p1b  = an acceptor's promise carrying its accepted log (slot -> (ballot, value)),
+     p1b  = an acceptor's promise carrying a log of proposals that covers its votes (`report_ok`),
      p2a  = the leader's proposal for a slot (fresh payload, re-commit of the highest-ballot
             accepted value found in a quorum of p1b logs, or a no-op for a hole),
      p2b  = an acceptor's accept.
@@ -33,6 +33,16 @@ Definition log_of (a b : N) (vs : list vote) : list lentry :=
 Definition quorum (n : N) (Q : list N) : Prop :=
   NoDup Q /\ (forall a, In a Q -> a < n) /\ n / 2 + 1 <= N.of_nat (length Q).
 
+(* what acceptor a may report in a p1b: a list of proposals it has seen (each entry is a p2a that
+   was really sent -- not necessarily one the acceptor voted for, and possibly of a ballot above
+   the promised one) that COVERS its votes: for every vote (slot s, ballot c) there is an entry for
+   s with a ballot >= c.  `log_of` (exactly the votes below b) is one such report; the log kept by
+   the Hydro acceptor (one entry per slot, the highest-ballot p2a received while not promised
+   higher) is another. *)
+Definition report_ok (p : pstate) (a : N) (lg : list lentry) : Prop :=
+  (forall s c w, In (s, c, w) lg -> In (c, s, w) (m2a p)) /\
+  (forall s c w, In (a, s, c, w) (votes p) -> exists c' w', In (s, c', w') lg /\ c <= c').
+
 (* the leader's choice for slot s from a quorum of p1b logs: free if no log mentions s, otherwise
    the value with the highest ballot *)
 Definition pick_ok (logs : list (N * list lentry)) (s v : N) : Prop :=
@@ -43,8 +53,8 @@ Definition pick_ok (logs : list (N * list lentry)) (s v : N) : Prop :=
 Inductive pstep (n : N) (p : pstate) : pstate -> Prop :=
 | P1a : forall b,
     pstep n p (mkP (maxBal p) (votes p) (b :: m1a p) (m1b p) (m2a p))
-| P1b : forall a b, a < n -> In b (m1a p) -> maxBal p a < b ->
-    pstep n p (mkP (updf (maxBal p) a b) (votes p) (m1a p) ((a, b, log_of a b (votes p)) :: m1b p) (m2a p))
+| P1b : forall a b lg, a < n -> In b (m1a p) -> maxBal p a <= b -> report_ok p a lg ->
+    pstep n p (mkP (updf (maxBal p) a b) (votes p) (m1a p) ((a, b, lg) :: m1b p) (m2a p))
 | P2a : forall b s v logs,
     (forall w, ~ In (b, s, w) (m2a p)) ->
     quorum n (map fst logs) -> (forall a lg, In (a, lg) logs -> In (a, b, lg) (m1b p)) ->
